@@ -565,6 +565,36 @@ func runTxnProp(r *Run, prop string) {
 		if bad {
 			continue
 		}
+		// --- C04: the reference processing does exactly what it has to: after every commit the rows are those
+		// the RFC reference ends with (operations applied, rows nobody refers to strongly collected, dangling
+		// weak references removed, and nothing else)
+		if prop == "C04" {
+			acc := make([]bool, len(impl))
+			for j := range impl {
+				acc[j] = impl[j].out.Committed && !hasErr(impl[j].out.Results)
+			}
+			var spec []rfcOut
+			if err := r.Mdl.Call(map[string]interface{}{"fn": "rfcHistory", "model": ts.modelJSON(), "txns": txns[:len(impl)], "accepted": acc}, &spec); err == nil && len(spec) == len(impl) {
+				stopped := false
+				for ti := range impl {
+					if !acc[ti] || spec[ti].Skipped {
+						continue
+					}
+					if spec[ti].Rejected {
+						break // (the reference and the implementation part ways: C03's business)
+					}
+					if a, b := dumpCanon(impl[ti].aft), dumpCanon(spec[ti].Rows); a != b {
+						r.Violation("txn", map[string]interface{}{"model": ts.modelJSON(), "txns": txns[:ti+1]}, diffLines(a, b), "the rows the RFC reference ends with", true,
+							fmt.Sprintf("transaction %d: after the commit the rows are not the previous rows changed by the operations, minus the rows nobody holds and exactly the dangling weak references", ti), "")
+						stopped = true
+						break
+					}
+				}
+				if stopped {
+					continue
+				}
+			}
+		}
 		// --- correspondence with the model for the whole history
 		mo, err := modelHistory(r, ts, txns)
 		cs := map[string]interface{}{"model": ts.modelJSON(), "txns": txns}
@@ -581,6 +611,21 @@ func runTxnProp(r *Run, prop string) {
 			}
 			for _, x := range mt.Results {
 				mr = append(mr, x.canon())
+			}
+			if prop == "C02" && !hasErr(it.out.Results) && hasErr(mt.Results) {
+				// the implementation carried out a transaction the model says has a failing operation: ask the
+				// reference. If it cannot run the transaction either, an operation that fails was answered with
+				// successful results and its transaction committed.
+				acc := make([]bool, ti+1)
+				for j := 0; j <= ti; j++ {
+					acc[j] = impl[j].out.Committed
+				}
+				var spec []rfcOut
+				if err := r.Mdl.Call(map[string]interface{}{"fn": "rfcHistory", "model": ts.modelJSON(), "txns": txns[:ti+1], "accepted": acc}, &spec); err == nil && len(spec) == ti+1 && spec[ti].Rejected {
+					r.Violation("txn", csT, strings.Join(ir, " ; "), strings.Join(mr, " ; "), true,
+						fmt.Sprintf("transaction %d: an operation that cannot be carried out (the RFC reference rejects the transaction) was answered with successful results and the transaction was committed", ti), "")
+					break
+				}
 			}
 			if strings.Join(ir, " ; ") != strings.Join(mr, " ; ") {
 				// oracle: does the property itself fail? (C06/C04/C02 oracles passed above) -> correspondence only
